@@ -10,7 +10,7 @@ NOTRUN = {0: 'allrun', 1: 't0-notstarted', 2: 'tlast-detached'}
 
 def variants():
     out = []
-    for W in (1, 2, 3, 4):
+    for W in (1, 2, 3, 4, 16):
         for caller in (0, 1, 2):
             if caller == 2 and W == 1:
                 continue
@@ -20,6 +20,8 @@ def variants():
                 sync = api == 0 and 'SYNC' in fl[0]
                 if sync and caller != 0 and not ('SKIP' in fl[0] or 'DIR' in fl[0]):
                     continue            # documented: a pool thread cannot wait synchronously for itself
+                if W == 16 and fl[0] not in ('0', 'SYNC', 'SKIP', 'OBO', 'SYNC+DIR'):
+                    continue
                 for notrun in (0, 1, 2):
                     if notrun == 1 and (caller == 1 or W == 1):
                         continue        # caller must be running / keep one running thread
@@ -62,6 +64,9 @@ def plan(tier, vs):
                 jobs.append((name, 3 if not faults else 2, 2))
             elif W == 3:
                 jobs.append((name, 2 if not faults else 1, 2))
+            elif W == 16:
+                if not faults:
+                    jobs.append((name, 1, 0))
             else:
                 jobs.append((name, 1, 1))
     return jobs
